@@ -109,6 +109,8 @@ func runC10(c *Ctx, r *Report) {
 	c10PoolUseAfterReturn(c, r)
 	c10LazyContext(c, r)
 	c10Registration(c, r)
+	// (f) the formula engine's constant folding obeys the same probe discipline
+	borrow(c, r, c19Simplifier, "C19-c", "C10-f", nil, true)
 }
 
 // ---------------------------------------------------------------- (a)
